@@ -184,15 +184,16 @@ ChunksRead(cs, off, acc, pad) ==
                        ELSE [data |-> r.data, len |-> r.len + szlen + c.n + 2, v |-> r.v]
 
 BodyRead(m, off) ==
-  CASE HeadFraming(m) = "none" -> [data |-> <<>>, len |-> 0, v |-> "ok"]
+  CASE HeadFraming(m) = "none" -> [data |-> <<>>, len |-> 0, v |-> "ok", lastdone |-> 0]
     [] HeadFraming(m) = "len" ->
-         LET n == HeadCL(m) IN [data |-> [i \in 1..n |-> off + i], len |-> n, v |-> "ok"]
+         LET n == HeadCL(m) IN [data |-> [i \in 1..n |-> off + i], len |-> n, v |-> "ok", lastdone |-> n]
     [] OTHER ->
          LET r == ChunksRead(m.chunks, off, <<>>, m.pad.c)
              lastlen == Len(SizeLine(m.last, IF m.chunks = <<>> THEN m.pad.c ELSE 0))
-         IN IF r.v = "reject" THEN r
-            ELSE IF Has(m.trl, HRejectKinds) THEN [data |-> r.data, len |-> 0, v |-> "reject"]
-            ELSE [data |-> r.data, len |-> r.len + lastlen + Len(FlatLines(m.trl, m.pad.t)) + 2, v |-> r.v]
+         IN IF r.v = "reject" THEN [data |-> r.data, len |-> 0, v |-> "reject", lastdone |-> 0]
+            ELSE IF Has(m.trl, HRejectKinds) THEN [data |-> r.data, len |-> 0, v |-> "reject", lastdone |-> r.len + lastlen]
+            ELSE [data |-> r.data, len |-> r.len + lastlen + Len(FlatLines(m.trl, m.pad.t)) + 2, v |-> r.v,
+                  lastdone |-> r.len + lastlen]
 
 (* Strict(ms): per message [hv, bv, start, hend, data, end, close].        *)
 (* Messages after the first one that is refused or closes are not read.    *)
@@ -204,10 +205,12 @@ StrictFrom(ms, off, first, proxyOn) ==
            hend == off + Len(HeadSyms(m))
        IN IF hv = "reject"
           THEN << [hv |-> "reject", bv |-> "ok", start |-> off, hend |-> hend, data |-> <<>>,
-                   end |-> hend, close |-> TRUE] >>
+                   end |-> hend, close |-> TRUE, lastdone |-> hend, chunked |-> FALSE] >>
           ELSE LET b == BodyRead(m, hend)
                    rec == [hv |-> hv, bv |-> b.v, start |-> off, hend |-> hend, data |-> b.data,
-                           end |-> hend + b.len, close |-> HeadClose(m)]
+                           end |-> hend + b.len, close |-> HeadClose(m),
+                           \* lastdone: offset at which the terminating chunk's size line is complete
+                           lastdone |-> hend + b.lastdone, chunked |-> HeadFraming(m) = "chunked"]
                IN IF b.v = "reject" \/ HeadClose(m) THEN <<rec>>
                   ELSE <<rec>> \o StrictFrom(Tail(ms), hend + b.len, FALSE, proxyOn)
 
